@@ -77,7 +77,6 @@ let class_name = function
   | V.StringRetyped -> "StringRetyped"
   | V.NullStringBecomesEmpty -> "NullStringBecomesEmpty"
   | V.IntegerInFloatFieldRounded -> "IntegerInFloatFieldRounded"
-  | V.FloatWalReparsedInexact -> "FloatWalReparsedInexact"
 
 let rec iter n f x = if n <= 0 then x else iter (n - 1) f (f x)
 
